@@ -80,7 +80,10 @@ def enc_win(records):
 def check_win(records, slack):
     buf = enc_win(records)
     raw = ctypes.create_string_buffer(buf + b"\xee" * slack, len(buf) + slack)
-    got = winapi._parse_event_buffer(raw.raw, len(buf))
+    try:
+        got = winapi._parse_event_buffer(raw.raw, len(buf))
+    except Exception as e:  # noqa: BLE001
+        return [f"winapi decode({records}, {len(buf)} bytes completed, slack={slack}) raised {e!r}"]
     want = [(a, n) for a, n in records]
     return [] if got == want else [f"winapi decode({records}, slack={slack}) = {got}"]
 
@@ -230,6 +233,10 @@ def main():
                 if pr:
                     bat.fail("C20.inotify-decoder", pr[0], {"kind": "inotify", "records": [[r[0], r[1], r[2], r[3].decode("latin-1"), r[4]] for r in recs]}, "Inotify._parse_event_buffer")
         names = ["", "a", "ab", "dir\\f", "éx", "abcde"]
+        bat.case("win-empty-buffer")
+        pr = check_win([], 256)      # zero bytes completed; the (poisoned) rest of the buffer is there so that a decoder that reads it anyway yields garbage records instead of crashing the battery
+        if pr:
+            bat.fail("C20.winapi-decoder", pr[0], {"kind": "win", "records": [], "slack": 256}, "_parse_event_buffer")
         for count in range(1, 5):
             combos = list(itertools.product(names, repeat=count))
             if len(combos) > 400:
